@@ -44,6 +44,8 @@ class Recorder:
         self.stack = []
         self.aborted = 0            # node entries refused at once by the budget check (no nested entry, no effect)
         self.first_abort = None
+        self.depth = 0              # > 0 while a host callback has re-entered eval on the same parser (that call has its own budget)
+        self.nested = 0
 
     def event(self, *what):
         self.log.append((self.enters,) + what)
@@ -79,6 +81,9 @@ def setup(ctx):
 
     def on_enter(node, state):
         rec = ctx.rec[0]
+        if rec.depth:
+            rec.nested += 1
+            return
         rec.enters += 1
         sid = id(state)
         if rec.first_state is None:
@@ -89,12 +94,14 @@ def setup(ctx):
 
     def on_exit(node, state, value):
         rec = ctx.rec[0]
+        if rec.depth:
+            return
         if rec.stack:
             rec.stack.pop()
 
     def on_raise(node, state, exc):
         rec = ctx.rec[0]
-        if not rec.stack:
+        if rec.depth or not rec.stack:
             return
         idx, nlog = rec.stack.pop()
         if type(exc).__name__ == 'OpsExecutionLimitExceededError' and rec.enters == idx and len(rec.log) == nlog:
@@ -130,14 +137,24 @@ def host(ctx, r_seed):
     def hm(f, n):
         rec[0].event('hm', brief(n))
         return [f(D(i)) for i in range(int(n))]
+    def reenter(k=0):
+        # a host callback that evaluates another program on the SAME parser while the outer call is in flight (its own names, its own budget)
+        r = rec[0]
+        r.event('reenter')
+        r.depth += 1
+        try:
+            return ctx.cur_parser.eval(['1 + 2', '[1, 2, 3] | map(v => v * 2) | sum', 'x = 5\nx * x', 'len("abc") + 1'][int(k) % 4], {}, None, 60)
+        finally:
+            r.depth -= 1
     names = gen2.host_names(random.Random(r_seed))
-    names.update({'emit': emit, 'try_': try_, 'hm': hm, 'a': D(1), 'b': D(2), 'x': D(3), 'hv': D(10), 'hs': 'host', 'hl': [D(1), D(2)]})
+    names.update({'emit': emit, 'try_': try_, 'hm': hm, 'reenter': reenter, 'a': D(1), 'b': D(2), 'x': D(3), 'hv': D(10), 'hs': 'host', 'hl': [D(1), D(2)]})
     return names
 
 
 EXTRA = ['emit(%s)', 'emit(%s, 1)', 'try_(%s, 1)', 'try_(%s, "a", 2)', 'hm(%s, 3)', 'emit(hm(%s, 2))', 'try_(v => hm(%s, 2), 0)', 'map([1, 2, 3], %s)', 'sorted([3, 1, 2], %s)',
          'filter([1, 2, 3], %s)', 'emit(map([1, 2], v => emit(v)))', 'push(h_list, emit(4))', 'h_dict["z"] = emit(5)', 'try_(v => push(h_list, nope), 1)', 'sorted([3, 1, 2], v => emit(0 - v))',
          'reduce([1, 2, 3], (p, q) => emit(p + q))', 'try_(%s)', 'emit(1) and emit(0) and emit(2)', 'emit(0) or emit(3)', 'emit(1) if emit(0) else emit(2)', '[emit(1), emit(2)][emit(0)]',
+         'reenter(1)', 'emit(reenter(0))', 'map([0, 1, 2], v => reenter(v))', 'reenter(2) + reenter(3)', 'try_(v => reenter(v), 1)',
          'rec = n => 0 if n < 1 else emit(n) + rec(n - 1)\nrec(4)', 'loop = n => loop(n + 1)\ntry_(loop, 0)', 'loop2 = n => emit(n) + loop2(n + 1)\nloop2(0)']
 
 
@@ -160,7 +177,7 @@ def cases(ctx):
     rnd = ctx.rnd
     if ctx.shard == 0:
         for src in ['1 + 2', 'emit(1)\nemit(2)\nemit(3)', 'x = 5\ny = x + 1\nemit(y)', 'map([1, 2, 3], v => emit(v))', 'sorted([3, 1, 2], v => 0 - v)',
-                    'hm(v => emit(v), 3)', 'try_(v => hm(w => emit(w), 5), 0)\nemit("after")', 'f = n => 0 if n < 1 else n + f(n - 1)\nf(5)', '']:
+                    'hm(v => emit(v), 3)', 'emit(1)\nreenter(1)\nmap([1, 2, 3, 4, 5, 6, 7, 8, 9, 10], v => emit(v))', 'try_(v => hm(w => emit(w), 5), 0)\nemit("after")', 'f = n => 0 if n < 1 else n + f(n - 1)\nf(5)', '']:
             yield ('prog', src, None, False)
         yield ('history', [('f = n => [n, n + 1, n + 2] | map(v => v * 2)', 100), ('f(1)', 10), ('f(1)', 10), ('f(1)', 10), ('f(2)', 50)])
     for _ in range(ctx.scale(400, 6000)):
@@ -176,6 +193,7 @@ def one_run(ctx, P, src, names, ast_names, budget):
     rec = Recorder(ctx)
     ctx.rec[0] = rec
     names.rec = ctx.rec
+    ctx.cur_parser = P
     try:
         v = P.eval(src, names, ast_names, budget) if budget is not None else P.eval(src, names, ast_names)
         out = ('value', brief(v))
